@@ -1573,8 +1573,8 @@ def flush_model(res: Result, pending: list[dict[str, Any]]) -> None:
         if not in_scope_dis:
             continue
         res.disagreements += len(in_scope_dis)
-        if p["bad"]:
-            continue
+        if p["bad"] or any(v.kind == "correspondence" for v in res.violations):
+            continue  # the oracle already reports this case / one failing-input search per run is enough
         case, origin = p["case"], p["origin"]
         found = False
         for cand in _simplifications(case):
@@ -1605,6 +1605,143 @@ def gen_valid_case(rng, topo: str | None = None) -> dict[str, Any]:
         if valid_case(case):
             return case
     raise RuntimeError("generator cannot produce an in-scope case")
+
+
+# --------------------------------------------------------------------------- optimisation stream (rounded, 2^-20)
+
+OBOUND = Fraction(1, 2**20)
+
+
+def fsolve_any(a, b):
+    """A particular solution of the (possibly singular, consistent) system a z = b; None if inconsistent."""
+    n = len(a)
+    m = len(a[0]) if a else 0
+    aug = [list(a[i]) + [b[i]] for i in range(n)]
+    piv_cols = []
+    r = 0
+    for col in range(m):
+        piv = next((k for k in range(r, n) if aug[k][col] != 0), None)
+        if piv is None:
+            continue
+        aug[r], aug[piv] = aug[piv], aug[r]
+        pv = aug[r][col]
+        aug[r] = [v / pv for v in aug[r]]
+        for k in range(n):
+            if k != r and aug[k][col] != 0:
+                f = aug[k][col]
+                aug[k] = [x - f * y for x, y in zip(aug[k], aug[r])]
+        piv_cols.append(col)
+        r += 1
+        if r == n:
+            break
+    if any(all(v == 0 for v in row[:m]) and row[m] != 0 for row in aug):
+        return None
+    z = [Fraction(0)] * m
+    for i, col in enumerate(piv_cols):
+        z[col] = aug[i][m]
+    return z
+
+
+def gen_opt_case(rng: common.Rng):
+    """A convex instance: objective `fo = sum q (z - a)^2` over the inputs z of one discipline, no user
+    constraint, wide bounds.  Returns (case, exact optimal value) or None."""
+    for _ in range(30):
+        case = gen_valid_case(rng, rng.pick(["s2", "s2", "s3ring", "s2w", "weak2"]))
+        cpl = set(couplings(case))
+        cands = [d for d in case["discs"] if any(n in cpl for n, _ in d["ins"])]
+        if not cands:
+            continue
+        d = cands[-1]
+        lin, quad, const = {}, {}, Fraction(0)
+        terms = []
+        for v, m in d["ins"]:
+            qs = [rng.pick([Fraction(1, 4), Fraction(1, 2), Fraction(1), Fraction(2)]) for _ in range(m)]
+            as_ = [_dy(rng, -2, 2, 4) for _ in range(m)]
+            quad[v] = [[rat(q) for q in qs]]
+            lin[v] = [[rat(-2 * q * a) for q, a in zip(qs, as_)]]
+            const += sum((q * a * a for q, a in zip(qs, as_)), Fraction(0))
+            terms += [(v, c, qs[c], as_[c]) for c in range(m)]
+        d["outs"].append(["fo", {"const": [rat(const)], "lin": lin, "quad": quad}])
+        case["objective"] = "fo"
+        case["constraints"] = []
+        for v in case["ds"]:
+            v["lb"] = ["-64"] * v["size"]
+            v["ub"] = ["64"] * v["size"]
+            if v["value"] is None:
+                v["value"] = [rat(_dy(rng, -2, 2, 4)) for _ in range(v["size"])]
+        case["ds"] = [v for v in case["ds"] if v["name"] in all_inputs(case)]
+        case["points"] = []
+        if relevant_disciplines(case) != {dd["name"] for dd in case["discs"]}:
+            continue
+        udn = used_design_names(case)
+        zero = {n: [Fraction(0)] * var_size(case, n) for n in udn}
+        sol = exact_mda(case, zero)
+        if sol is None:
+            continue
+        y0, W, _ = sol
+        off, tot = layout(case, udn)
+        rows, rhs, wts = [], [], []
+        for v, c, q, a in terms:
+            row = [Fraction(0)] * tot
+            if v in off:
+                row[off[v] + c] = Fraction(1)
+                r0 = Fraction(0)
+            elif v in y0:
+                for n in udn:
+                    for cc in range(var_size(case, n)):
+                        row[off[n] + cc] = W[v, n][c][cc]
+                r0 = y0[v][c]
+            else:
+                r0 = default_of(d, v)[c]
+            rows.append(row)
+            rhs.append(r0 - a)
+            wts.append(q)
+        ata = [[sum((wts[k] * rows[k][i] * rows[k][j] for k in range(len(rows))), Fraction(0)) for j in range(tot)] for i in range(tot)]
+        atb = [-sum((wts[k] * rows[k][i] * rhs[k] for k in range(len(rows))), Fraction(0)) for i in range(tot)]
+        xs = fsolve_any(ata, atb)
+        if xs is None:
+            continue
+        fstar = sum((wts[k] * (sum((rows[k][i] * xs[i] for i in range(tot)), Fraction(0)) + rhs[k]) ** 2 for k in range(len(rows))), Fraction(0))
+        xd = {n: xs[off[n] : off[n] + var_size(case, n)] for n in udn}
+        ys = exact_mda(case, xd)[0]
+        if any(abs(a) > 48 for v in [*xd.values(), *ys.values()] for a in v):
+            continue
+        # the minimum-norm-free particular solution may be far from the start; fine for a convex quadratic
+        if not valid_case(case):
+            continue
+        return case, fstar
+    return None
+
+
+def run_opt_case(res: Result, case, fstar: Fraction, rng: common.Rng, origin: str) -> None:
+    from gemseo.scenarios.mdo_scenario import MDOScenario
+
+    mda = rng.pick(["MDAJacobi", "MDAGaussSeidel", "MDAChain"])
+    st = dict(MDA_SETTINGS)
+    if mda == "MDAChain":
+        st["inner_mda_settings"] = dict(MDA_SETTINGS)
+    cfgs = [("MDF/" + mda, {"formulation_name": "MDF", "main_mda_name": mda, "main_mda_settings": st}),
+            ("IDF/norm=1", {"formulation_name": "IDF", "normalize_constraints": True}),
+            ("IDF/norm=0", {"formulation_name": "IDF", "normalize_constraints": False})]
+    res.evaluations += 1
+    res.count("optimisation-case")
+    for ck, settings in cfgs:
+        key = "optimum-" + ck.split("/")[0].lower()
+        try:
+            sc = MDOScenario(build_discs(case), case["objective"], build_ds(case), **settings)
+            sc.execute(algo_name="SLSQP", max_iter=400, ftol_rel=1e-15, ftol_abs=1e-15, xtol_rel=1e-15, xtol_abs=1e-15)
+            r = sc.optimization_result
+            f = float(r.f_opt)
+            ok = bool(r.is_feasible) and near(f, fstar, OBOUND)
+            what = f"{ck}: optimum {f!r} (feasible={r.is_feasible}) instead of {float(fstar)!r} ({fstar})"
+        except Exception as e:  # noqa: BLE001
+            ok = False
+            what = f"{ck}: the scenario raised {common.exc_class(e)} {e!r}"[:400]
+        res.count(f"opt-cfg={ck}")
+        if ok:
+            res.traces_validated += 1
+        else:
+            res.violate("oracle", key, what, {"opt_case": case, "fstar": rat(fstar), "origin": origin, "cfg": ck})
 
 
 def gen_missing_coupling_case(rng) -> dict[str, Any]:
@@ -1653,12 +1790,26 @@ def run(ctx) -> Result:
             flush_model(res, pending)
     if pending is not None:
         flush_model(res, pending)
+    # optimisation stream: each formulation reaches the exact optimal value of a convex instance
+    orng = common.make_rng(ctx.seed, "C17-opt")
+    for k in range(40 if ctx.thorough else 5):
+        if time.time() > ctx.deadline:
+            break
+        g = gen_opt_case(orng)
+        if g is not None:
+            run_opt_case(res, g[0], g[1], orng, f"seed {ctx.seed} optimisation case {k}")
     return res
 
 
 def replay(path: str) -> int:
     data = json.loads(open(path).read())
     rp = data["replay"]
+    if "opt_case" in rp:
+        res = Result(PID)
+        run_opt_case(res, rp["opt_case"], Fraction(rp["fstar"]), common.make_rng(0, "replay"), "replay")
+        for v in res.violations:
+            print("ORACLE FAILS:", v.key, v.what)
+        return 1 if res.violations else 0
     if "case" not in rp:
         print(json.dumps(rp, indent=1)[:4000])
         return 1
